@@ -648,12 +648,13 @@ func setFragment(uri *url.URL, params url.Values) string {
 }
 
 func mergeQueryParams(uri *url.URL, params url.Values) string {
-	queries := uri.Query()
-	for param, values := range params {
-		for _, value := range values {
-			queries.Add(param, value)
-		}
+	// the query of the uri is kept as it is: rebuilt from uri.Query()
+	// it would lose every part that url.ParseQuery does not accept
+	encoded := params.Encode()
+	if uri.RawQuery == "" {
+		uri.RawQuery = encoded
+	} else if encoded != "" {
+		uri.RawQuery = uri.RawQuery + "&" + encoded
 	}
-	uri.RawQuery = queries.Encode()
 	return uri.String()
 }
